@@ -173,6 +173,20 @@ func c07(c *Ctx) {
 	//   handler before the marker is stored: recover, the marshal calls, ProtoMessage, append, StoreLogProto, logging and
 	//   termination calls with plain arguments.
 	{
+		// clockOnly: time.Now / Since / Until and the methods of time.Time and time.Duration — they neither panic nor block
+		clockOnly := func(fn *types.Func) bool {
+			if fn.Pkg() == nil || fn.Pkg().Path() != "time" {
+				return false
+			}
+			if rn := astx.RecvNamed(fn); rn != nil {
+				return rn.Obj().Name() == "Time" || rn.Obj().Name() == "Duration"
+			}
+			switch fn.Name() {
+			case "Now", "Since", "Until":
+				return true
+			}
+			return false
+		}
 		plainArgs := func(call *ast.CallExpr) bool {
 			ok := true
 			for _, a := range call.Args {
@@ -182,7 +196,7 @@ func c07(c *Ctx) {
 							return true
 						}
 						fn := astx.Callee(info, inner)
-						if fn == nil || fn.Name() != "String" && fn.Name() != "Error" {
+						if fn == nil || fn.Name() != "String" && fn.Name() != "Error" && !clockOnly(fn) {
 							ok = false
 						}
 					}
@@ -213,7 +227,10 @@ func c07(c *Ctx) {
 					return true, ""
 				}
 				return false, astx.Str(call.Fun) + " with computed arguments"
-			case strings.Contains(pkg, "prometheus"):
+			case strings.Contains(pkg, "prometheus") || pkg == "github.com/hashicorp/go-metrics" || pkg == "github.com/armon/go-metrics":
+				return plainArgs(call), astx.Str(call.Fun)
+			case clockOnly(fn):
+				// reading the clock and arithmetic on what was read (for a duration metric): nothing of the entry is involved
 				return plainArgs(call), astx.Str(call.Fun)
 			case fn.Name() == "String" || fn.Name() == "Error":
 				return true, ""
@@ -240,6 +257,18 @@ func c07(c *Ctx) {
 				continue
 			}
 			ok, what := allowed(call, false)
+			// a method called on what a map look-up gave (a pre-computed table of counters by message type): for a key the
+			// table lacks — the marked entry's type — the value is nil and the call panics, outside any recover
+			if se, isSel := ast.Unparen(call.Fun).(*ast.SelectorExpr); isSel && ok {
+				if ix, isIx := ast.Unparen(se.X).(*ast.IndexExpr); isIx {
+					if mt, isMap := info.TypeOf(ix.X).Underlying().(*types.Map); isMap {
+						switch mt.Elem().Underlying().(type) {
+						case *types.Interface, *types.Pointer:
+							ok, what = false, "a method on the unchecked result of the map look-up "+astx.Str(ix)
+						}
+					}
+				}
+			}
 			r.Check(ok, "C07.D4", ap.Name(), "nothing but the apply call, metrics and plain logging runs in applyProto", c.P.Pos(call.Pos()), "closed list of callees",
 				"applyProto calls "+what+": this also runs when the entry is replayed after it was marked as message of death, where the handler returns before recover() — if it can panic on the entry's content, every node dies at that entry on every restart")
 		}
@@ -540,6 +569,14 @@ func c07(c *Ctx) {
 		}
 		r.Check(ok, "C07.D3", sl.Name(), "record key derives from msg.Index", c.P.Pos(sl.Node().Pos()), "Put key depends on pb.RaftLog.Index",
 			"StoreLogProto does not key the record by the entry's Index: the mark lands in a different slot")
+	}
+
+	// D3c: the marker is durable when StoreLogProto says so: no way to return success without the write (a "this entry is
+	// already stored" fast path keyed by index and term drops exactly the re-written, marked entry)
+	if sl := c.MustFunc("raftstore.(*LevelDBStore).StoreLogProto"); sl != nil {
+		if c.succeedsOnlyByWriting("C07.D3", sl, "StoreLogProto can return nil without having written: applyProto then terminates the process believing the mark is durable, and the node dies on the unmarked entry again at every restart") == 0 {
+			r.Break("C07.D3: StoreLogProto has no return with a result")
+		}
 	}
 
 	// D3b: what StoreLogProto wrote can be read back whatever the store's settings are: applyProto stores the marked entry in the
